@@ -52,7 +52,51 @@ func (r Rng) fullRangeID() ID {
 
 func driveLaws(t *Tracer, r Rng, n int) {
 	for i := 0; i < n; i++ {
-		switch r.Intn(9) {
+		switch r.Intn(10) {
+		case 9: // a single tile's IDs are exactly the vertical range the key conversion reports (any magnitude)
+			E := r.In(0, 35)
+			kz := r.In(0, 35)
+			nk := int64(1) << uint(kz)
+			z := r.edgeIn(0, nk-1)
+			ovz := r.In(0, 35)
+			O := r.offset()
+			if r.Chance(0.3) {
+				O = r.In(-(1 << 36), 1<<36)
+			}
+			th := r.In(0, 35)
+			tx, ty := r.patternedIndex(th), r.patternedIndex(th)
+			mn, mx, err := transform.ConvertAltitudekeyToMinMaxZ(z, kz, ovz, E, O)
+			if err == nil && mx-mn > 64 {
+				continue
+			}
+			tile, terr := object.NewTileXYZ(th, tx, ty, kz, z)
+			if terr != nil {
+				continue
+			}
+			var lhs, rhs []string
+			o, _ := guard(func() (any, error) {
+				res, e2 := transform.ConvertTileXYZsToExtendedSpatialIDs([]*object.TileXYZ{tile}, E, O, ovz)
+				if (e2 != nil) != (err != nil) {
+					lhs, rhs = []string{fmt.Sprint("error:", e2 != nil)}, []string{fmt.Sprint("error:", err != nil)}
+					return nil, nil
+				}
+				if err != nil {
+					lhs, rhs = []string{"error"}, []string{"error"}
+					return nil, nil
+				}
+				for _, id := range res {
+					lhs = append(lhs, id.ID())
+				}
+				for f := mn; f <= mx; f++ {
+					rhs = append(rhs, fmt.Sprintf("%d/%d/%d/%d/%d", th, tx, ty, ovz, f))
+				}
+				return nil, nil
+			})
+			bad := ""
+			if o != "ok" {
+				bad = "outcome " + o
+			}
+			emitLaw(t, "TileIsKeyRange", map[string]any{"tile": fmt.Sprint(th, tx, ty, kz, z), "E": E, "O": O, "ovz": ovz}, sortedCopy(lhs), sortedCopy(rhs), bad)
 		case 7: // translation law: moving the voxel by k cells = moving the offset by k cell heights (cells >= 1 m);
 			// moving the offset by m key cells moves the keys by m.  Ties large indices / offsets to the small
 			// ones whose band TLC evaluates exactly.
